@@ -178,3 +178,4 @@ func loopVarI64(name string) int64               { panic("loopVar is only availa
 func cutActive() bool                            { return false }
 func streamSeed(r *randomBitStream) uint64 { panic("streamSeed is only available under gosym") }
 func loopFrameValue(typ string) any        { panic("loopFrameValue is only available under gosym") }
+func tickingTimestamps(on bool)              {}
